@@ -14,7 +14,7 @@ EXPLANATION = (
     "a use that is not dominated by the classifier's success edge (or, for errno construction, its error edge) is a violation, as is a result that is never looked at, "
     "except for a reviewed table of calls that cannot fail or do not return (EXIT, RT_SIGRETURN, GETPID, MUNMAP==0 in the allocator, SET_TID_ADDRESS, ARCH_PRCTL, EXECVE which only returns on error); "
     "C09.3 every errno handed to Error::with_code that derives from a syscall result is exactly 0 - (res as i32); "
-    "C09.5 the errno carrier is lossless: Errno's field holds at least 16 bits and Errno::new / Errno::raw pass the code through unchanged; C09.4 on the success edge the Ok payload is the result itself, a cast of it or unrelated to it (no arithmetic on it), and for calls whose success value is a full-width quantity (offsets, byte counts, addresses) it never passes through a 32-bit cast or the 31-bit descriptor decoder; "
+    "C09.8 the errno carrier is lossless: Errno's field holds at least 16 bits and Errno::new / Errno::raw pass the code through unchanged; C09.4 on the success edge the Ok payload is the result itself, a cast of it or unrelated to it (no arithmetic on it), and for calls whose success value is a full-width quantity (offsets, byte counts, addresses) it never passes through a 32-bit cast or the 31-bit descriptor decoder; "
     "C09.5 no raw syscall site lies on a CFG cycle except dup's documented EBUSY retry, whose back edge must be on the classified error path with errno == EBUSY; "
     "C09.6 wrappers returning a descriptor build it with coerce_from_register. "
     "NOT decided: what the kernel returns; behaviour under forced results (fault injection).")
@@ -129,21 +129,21 @@ def stmt_reads(s):
 
 
 def run_one(ck, prog):
-    # ---- C09.5 the errno carrier is lossless: every code in 1..=4095 must survive Errno::new -> Errno::raw ---------------------------
+    # ---- C09.8 the errno carrier is lossless: every code in 1..=4095 must survive Errno::new -> Errno::raw ---------------------------
     ea = prog.adts.get("rusl::error::errno::Errno")
-    if ck.anchor("C09.5", "Errno", ea):
+    if ck.anchor("C09.8", "Errno", ea):
         ftys = [f_["ty"] for v in ea["variants"] for f_ in v["fields"]]
         wide = {"i16": 16, "u16": 16, "i32": 32, "u32": 32, "i64": 64, "u64": 64, "isize": 64, "usize": 64, "i128": 128, "u128": 128, "i8": 8, "u8": 8}
-        ck.ob("C09.5", "errno-carrier-holds-4095", len(ftys) == 1 and wide.get(ftys[0], 0) >= 16 and ftys[0] != "i8", detail=f"Errno stores its code in {ftys}: the kernel's error window is 1..=4095, a narrower field reports errno modulo its range")
+        ck.ob("C09.8", "errno-carrier-holds-4095", len(ftys) == 1 and wide.get(ftys[0], 0) >= 16 and ftys[0] != "i8", detail=f"Errno stores its code in {ftys}: the kernel's error window is 1..=4095, a narrower field reports errno modulo its range")
         for nm in ("new", "raw"):
             ef = prog.fns.get("rusl::error::errno::Errno::" + nm)
-            if not ck.anchor("C09.5", "Errno::" + nm, ef):
+            if not ck.anchor("C09.8", "Errno::" + nm, ef):
                 continue
             ec = prog.ctx(ef)
             rets = list(ec.ret_expr().values())
             narrow = [x for r in rets for x in walk_deep(r, ec.prov) if x[0] == "cast" and wide.get(str(x[3]), 64) < 16] + \
                      [x for r in rets for x in walk_deep(r, ec.prov) if x[0] in ("bin", "call")]
-            ck.ob("C09.5", f"errno-{nm}-is-the-identity", len(rets) == 1 and not narrow and mentions(rets[0], ec.prov, lambda z: z[0] == "param" and z[1] == 1), fn=ef["path"],
+            ck.ob("C09.8", f"errno-{nm}-is-the-identity", len(rets) == 1 and not narrow and mentions(rets[0], ec.prov, lambda z: z[0] == "param" and z[1] == 1), fn=ef["path"],
                   detail=f"Errno::{nm} must hand the code through unchanged; found {show(rets[0]) if rets else None}")
     # ---- C09.1 threshold ---------------------------------------------------------------------
     f = prog.fns.get(CLASSIFIERS[0])
@@ -457,7 +457,8 @@ def check_retry(ck, prog, ctx, bb, name, key):
                         for x, y in ((f[2], f[3]), (f[3], f[2])):
                             if fold(y) == ebusy and is_negated_result(x, bb):
                                 eq_edges.add((e.src, e.dst))
-        r2 = cfg.reachable_from(nxt, avoid_edges=eq_edges) if nxt is not None else set()
+        from ..engine import pathsens
+        r2 = pathsens.reachable(ctx, nxt, avoid_edges=eq_edges) if nxt is not None else set()   # (the classifier may be asked twice about the same result)
         ok = (not on_success_cycle) and bool(err_edges) and bb not in r2
         why = ("dup's retry must happen only when the classified error is EBUSY: the loop can currently repeat the call on a path that is not "
                "(is_syscall_error(res) == true and 0 - res == EBUSY) - e.g. when the call succeeded with value 16")
